@@ -159,7 +159,7 @@ func NewChain(g Gen, parent []byte) *Chain {
 				Nonce: ctr.next(), GasPrice: ctr.next(), Gas: ctr.next(), Value: ctr.next(),
 				V: ctr.next(), R: ctr.next(), S: ctr.next(), ChainID: ctr.next(),
 				MaxPrio: ctr.next(), MaxFee: ctr.next(),
-				Status: 1, GasUsed: ctr.next(), EffectiveGasPrice: ctr.next(),
+				Status: byte(1 + ctr.next()%250), GasUsed: ctr.next(), EffectiveGasPrice: ctr.next(),
 				ContractAddress: ctr.bytes(g.AddrLen),
 			}
 			if g.DataLen > 0 {
